@@ -228,7 +228,8 @@ def rule_zero_step(eng, rep, rule="C13-2.zero-step-replaces-a-model-increasing-r
         for dn in ddefs:
             if cfg.path_avoiding(pdn, dn, [gnode]) is not None and cfg.path_avoiding(dn, gnode, []) is not None:
                 okp = False
-        hterm = [c for c in ast.walk(st.value) if isinstance(c, ast.Call) and eng.res.calls[id(c)].role and "h" in eng.res.calls[id(c)].role.split("|")]
+        from .c03 import _is_hcall
+        hterm = [c for c in ast.walk(st.value) if isinstance(c, ast.Call) and id(c) in eng.res.calls and _is_hcall(eng, c)]      # (a call of h or of a wrapper whose every return is one)
         if not (isinstance(st.value, ast.BinOp) and isinstance(st.value.op, ast.Sub) and hterm):
             okp = False
     if okp and pdefs:
